@@ -25,7 +25,7 @@ ASSUMPTIONS = [
     "structural rulebook signature covers patterns, flags, logic/diff_logic/apply_logic qualified names, params, nesting",
 ]
 EXHAUSTIVE = {"quick": True, "thorough": True}
-FLOORS = {"quick": {"entries": 168, "rulebooks_loaded": 100, "registry_orders": 100, "cross_process_signatures": 20, "shared_provider_loads": 200, "shared_provider_loads_of_respelled_models": 300, "spellings_that_are_other_hardware": 20, "models_in_two_families_of_different_chains": 40, "answers_of_a_growing_registry": 3000},
+FLOORS = {"quick": {"entries": 168, "rulebooks_loaded": 100, "registry_orders": 100, "cross_process_signatures": 20, "shared_provider_loads": 200, "shared_provider_loads_of_respelled_models": 300, "spellings_that_are_other_hardware": 20, "models_in_two_families_of_different_chains": 40, "answers_of_a_growing_registry": 3000, "interrupted_loads": 60},
           "thorough": {"entries": 168, "rulebooks_loaded": 100, "registry_orders": 100, "cross_process_signatures": 20}}
 SOFTS = ["", "Cumulus Linux 4.4", "VRP V200R005"]
 
@@ -321,6 +321,8 @@ def run_shard(spec, acc):
     db = corpus.devdb()
     if spec["mode"] == "replay":
         w = spec["witness"]
+        if w.get("interrupted"):
+            return check_interrupted(w["model"], w["interrupted"][0], w["interrupted"][1], acc, before=w.get("served_before"))
         check_model(w["model"], w.get("soft", ""), w.get("entry"), acc, db)
         return
     rng = random.Random("C18/%s" % spec["seed"])
@@ -372,6 +374,11 @@ def run_shard(spec, acc):
                     acc.violation("C18/rulebook-depends-on-load-history", "a provider that served other models before returns a different rulebook than a fresh provider",
                                   {"model": mdl, "soft": "", "how": how, "order_prefix": models[:models.index(mdl)][-6:]})
         acc.count("spellings_that_are_other_hardware", sum(1 for v_ in fresh_by_key.values() if len(v_) > 1))
+        irng = random.Random("C18/interrupted/%s/%s" % (spec["seed"], spec["perm"]))
+        plain = [m_ for m_ in models if m_ not in variants]
+        for mdl in irng.sample(plain, min(len(plain), 40)):
+            check_interrupted(mdl, irng.choice([".rul", ".order", ".deploy"]), irng.choice(["_read_escaped_rul", "_render_rul"]), acc,
+                              before=irng.choice([None, irng.choice(plain)]))
         return
     if spec["mode"] == "xproc":
         # signatures in this process vs a fresh process with another hash seed
@@ -420,6 +427,57 @@ def run_shard(spec, acc):
                 acc.violation("C18/canonical-hardware-resolves-to-other-vendor/%s" % v.NAME,
                               "a registered vendor's own canonical hardware resolves to a different vendor",
                               {"model": v.hardware.model, "soft": "", "entry": None, "vendor": v.NAME, "got": got and got.NAME})
+
+
+class InjectedFault(OSError):
+    pass
+
+
+def check_interrupted(mdl, which, where, acc, before=None):
+    """a load of the model's rulebook that fails half-way (the read or the rendering of one of the three texts raises once) leaves nothing
+    behind: the next load on the same provider gives the rulebook a fresh provider gives"""
+    from annet.annlib.netdev.views.hardware import HardwareView
+    from annet.rulebook import DefaultRulebookProvider
+    hw = HardwareView(mdl, "")
+    if hw.vendor is None:
+        return
+    w = {"model": mdl, "soft": "", "interrupted": [which, where], "served_before": before}
+    fresh = R_hash(rb_signature(DefaultRulebookProvider().get_rulebook(hw)))
+    prov = DefaultRulebookProvider()
+    if before:
+        prov.get_rulebook(HardwareView(before, ""))
+    real = getattr(prov, where)
+    fired = []
+
+    def failing(name, *a, **kw):
+        if name.endswith(which) and not fired:
+            fired.append(name)
+            raise InjectedFault("injected: %s cannot be read now" % name)
+        return real(name, *a, **kw)
+    setattr(prov, where, failing)
+    try:
+        prov.get_rulebook(hw)
+        raised = False
+    except InjectedFault:
+        raised = True
+    finally:
+        delattr(prov, where)
+    if not fired:
+        acc.count("interrupted_loads_that_never_reached_the_fault")
+        return
+    acc.count("interrupted_loads")
+    acc.case([mdl, "interrupted", which, where], nontrivial=True)
+    if not raised:
+        acc.violation("C18/failed-load-goes-unnoticed", "reading one of the rule texts failed with an I/O error and get_rulebook() returned a rulebook all the same", w)
+        return
+    try:
+        again = R_hash(rb_signature(prov.get_rulebook(hw)))
+    except Exception as e:
+        acc.violation("C18/rulebook-after-a-failed-load-is-broken", "after a load that failed half-way, the same provider hands out an incomplete rulebook for the model",
+                      dict(w, error=repr(e)[:300]))
+        return
+    if again != fresh:
+        acc.violation("C18/rulebook-after-a-failed-load-differs", "after a load that failed half-way, the same provider gives another rulebook for the model than a fresh provider", w)
 
 
 def R_hash(sig):
